@@ -201,7 +201,7 @@ func runC01(seed int64, n int, tier string, outDir string) (*Report, error) {
 		// a non-ASCII byte is judged natively only - counted, not sent to Coq)
 		if c01OutsideURLGrammar(it) {
 			rep.Count("dec-case-skipped:iri-outside-url-grammar")
-		} else if len(out) > 0 && len(out) < 2500 && (label != "random" || decCases < decBudget) && (label == "random" || idx%7 == 0 || strings.HasPrefix(label, "directed")) {
+		} else if len(out) > 0 && len(out) < 2500 && (label != "random" || decCases < decBudget) && (label == "random" || idx%7 == 0 || strings.HasPrefix(label, "directed") || strings.HasSuffix(label, ".Endpoints") || strings.HasSuffix(label, ".PublicKey") || strings.HasSuffix(label, ".Source")) {
 			cw.Add("("+hx(out)+", Ok "+CoqItem(back)+")", fmt.Sprintf("%s idx=%d", label, idx))
 			decCases++
 		}
@@ -380,7 +380,10 @@ func probeValues(g *Gen, t reflect.Type, name string) []reflect.Value {
 		return []reflect.Value{v(ap.Source{MediaType: "text/markdown", Content: ap.NaturalLanguageValues{{Ref: ap.NilLangRef, Value: ap.Content("src")}}}), v(ap.Source{MediaType: "text/markdown"}),
 			v(ap.Source{Content: ap.NaturalLanguageValues{{Ref: ap.NilLangRef, Value: ap.Content("src")}}})}
 	case t == tEndp:
-		return []reflect.Value{v(&ap.Endpoints{SharedInbox: id, UploadMedia: ap.IRI("https://example.com/up")})}
+		return []reflect.Value{v(&ap.Endpoints{SharedInbox: id, UploadMedia: ap.IRI("https://example.com/up")}),
+			v(&ap.Endpoints{UploadMedia: ap.IRI("https://example.com/e/1"), OauthAuthorizationEndpoint: ap.IRI("https://example.com/e/2"), OauthTokenEndpoint: ap.IRI("https://example.com/e/3"),
+				ProvideClientKey: ap.IRI("https://example.com/e/4"), SignClientKey: ap.IRI("https://example.com/e/5"), SharedInbox: ap.IRI("https://example.com/e/6")}),
+			v(&ap.Endpoints{SignClientKey: ap.IRI("https://example.com/e/5"), SharedInbox: ap.IRI("https://example.com/e/6")})}
 	case t == tPubKey:
 		return []reflect.Value{v(ap.PublicKey{ID: "https://example.com/k", Owner: id, PublicKeyPem: "-----BEGIN PUBLIC KEY-----\nMIIB\n-----END PUBLIC KEY-----"}),
 			v(ap.PublicKey{ID: "https://example.com/k"}), v(ap.PublicKey{PublicKeyPem: "PEM"})}
